@@ -208,19 +208,19 @@ def gen_program(rng, conflict=False):
                     return ["+", ["var", rng.choice(loc["cplx"])], realexpr(1)]
                 return base
 
-            if r < 0.08 and (loc["arr"] or loc["ut"]):
+            if r < 0.13 and (loc["arr"] or loc["ut"]):
                 # an accumulator that starts as a (complex or real) scalar and widens to an array / user type:
                 # legal joins, reached in an order that depends on the presentation
                 big = rng.choice(loc["arr"] + loc["ut"])
                 kind = "arr" if big in loc["arr"] else "ut"
                 acc = lhs("acc", "carr" if kind == "arr" else "ut")
                 start = cplxexpr() if (rng.random() < 0.6 and kind == "arr") else realexpr(0)
-                if loc["int"] and rng.random() < 0.4:
+                if loc["int"] and rng.random() < 0.6:
                     # (... + a loop counter: while the other term is unknown the accumulator is provisionally an integer)
                     start = ["+", start, ["var", rng.choice(loc["int"])]]
                 phases[pn].append(["assign", acc, start])
                 phases[pn].append(["assign", acc, ["+", ["var", acc], ["var", big]]])
-                if kind == "arr" and rng.random() < 0.5:
+                if kind == "arr" and rng.random() < 0.65:
                     # ... and handed to a built-in whose result kind is computed from its argument's kind
                     fn, extra = rng.choice([("<builtin>transpose", [["num", 1]]), ("<builtin>elementwise_abs", [])])
                     phases[pn].append(["call", [lhs("tr", "carr")], fn, [["var", acc]] + extra, {}])
